@@ -56,6 +56,11 @@ impl<'a> Dev for CryptoReader<'a> {
 }
 //@impl src/read.rs | impl<'a> Read for CryptoReader<'a>
 impl<'a> Read for CryptoReader<'a> {
+    // a plaintext (unencrypted) entry reads straight from its bounded view of the archive
+    open spec fn g_read_rel(&self, after: &Self, buf_len: int, out: Seq<u8>, r: io::Result<usize>) -> bool {
+        (*self) matches CryptoReader::Plaintext(t0) ==> ((*after) matches CryptoReader::Plaintext(t1)
+            && take_read(t0.inner, t0.limit, t1.inner, t1.limit, buf_len, out, r is Ok, (if r is Ok { r->Ok_0 as int } else { 0 })))
+    }
 //@use cryptoreader_read
 }
 //@impl src/read.rs | impl<'a> CryptoReader<'a>
